@@ -68,6 +68,8 @@ def validate(traces):
     str_cfg = ('SPECIFICATION TSpec\nCONSTANTS FixFallback = %s FixEof = %s StrictTrailer = FALSE MaxP = 1\n'
                'CONSTRAINT Record\nPOSTCONDITION Post\nCHECK_DEADLOCK FALSE\n' % (FIX_FALLBACK, FIX_EOF))
     slim = [{k: v for k, v in t.items() if k != 'prof'} for t in traces]
+    traces = [dict({k: v for k, v in t.items() if k not in ('ref', 'quirk1f', 'n')},
+                   ev=[{k: v for k, v in e.items() if k not in ('out', 'total')} for e in t['ev']]) for t in traces]
     chunks = [(i, min(i + 4000, len(traces))) for i in range(0, len(traces), 4000)]
 
     def job(args):
@@ -141,7 +143,7 @@ def run(chk):
                    constants=dict(FixFallback=ff, FixEof=fe, MaxP=maxp, StrictTrailer=False, invariants=invs),
                    expect_actions=acts)
     # ---------------- 2. bodies, TLC-generated behaviours
-    full_n, zone, max_pieces = (8, 7, 3) if quick else (13, 12, 4)
+    full_n, zone, max_pieces = (7, 6, 2) if quick else (11, 10, 3)
     bodies = X.make_bodies(chk.tier, full_n)
     import time
     t0 = time.time()
@@ -152,14 +154,16 @@ def run(chk):
     chk.transitions += gres['states']
     paths = ['class', 'length', 'close'] if quick else ['class', 'length', 'close', 'chunked']
     runs = []    # (body, pieces, path, events, origin)
-    for (bi, pieces, predicted) in scripts:
+    for si, (bi, pieces, predicted) in enumerate(scripts):
         b = bodies[bi]
         for path in paths:
+            if quick and path == 'length' and b.dec != 'none' and si % 2:
+                continue
             if path == 'class' and b.dec == 'none':
                 continue
             if path == 'close' and quick and len(b.data) > 6:
                 continue
-            if path == 'chunked' and len(b.data) > 10:
+            if path in ('close', 'chunked') and not quick and len(b.data) > 7:
                 continue
             runs.append((b, pieces, path, execute(b, pieces, path), 'tlc'))
     for (b, pieces) in random_cases(rng, 150 if quick else 4000):
